@@ -22,6 +22,10 @@ type EqOpts struct {
 	// IgnoreTime: time.Time leaves are not compared (their resolution depends
 	// on the schema format, which reflection cannot see; bytes are compared instead).
 	IgnoreTime bool
+	// UnsetMayBecomeSet: an unset optional member on the sending side may arrive set (schema
+	// defaults, discriminator members the encoder derives from the variant). Used only where the
+	// document's defaults are not modelled (corpus documents).
+	UnsetMayBecomeSet bool
 }
 
 // Equal compares two values; on difference it returns the path of the first one.
@@ -80,6 +84,11 @@ func eq(a, b reflect.Value, o EqOpts, path string) (bool, string) {
 		}
 		return true, ""
 	case reflect.Struct:
+		if o.UnsetMayBecomeSet {
+			if hasSet, _, ok := isWrapper(a.Type()); ok && hasSet && !a.FieldByName("Set").Bool() && b.FieldByName("Set").Bool() {
+				return true, ""
+			}
+		}
 		for i := 0; i < a.NumField(); i++ {
 			if !a.Type().Field(i).IsExported() {
 				continue
